@@ -22,7 +22,7 @@ import threading
 from lib import vk
 
 PKG = "search"
-FILES = ["c19_reload_test.go"]
+FILES = ["c19_reload_test.go", "c19_slowload_test.go"]
 NOF = {"r": "", "f": 0, "side": "", "p": 0}
 
 
@@ -330,6 +330,24 @@ def run(ctx):
                     crossed.add((e["k"], e["i"]))
         nontrivial += len(crossed)
         ctx.log("replay: %d scripts, %d events, %d rejected, %d searches across a publication" % (nscripts, len(events), len(rej), len(crossed)))
+
+    # ------------------------------------------------------------------ V: a start-up batch that runs for more than 5 s
+    sl = ctx.path("trace_slowload.ndjson")
+    rc3, out3 = ctx.run_bin(bg["bin"], "^TestVerif_C19_SlowLoad$", env=dict(env0, VERIF_OUT=sl), timeout=1800)
+    if rc3 != 0 or "--- PASS" not in out3:
+        zp = vk.zoekt_panic(out3)
+        if zp or "unexpected fault address" in out3 or "SIGSEGV" in out3:
+            ctx.violation("C19:slow-load:crash", {"output": out3[-2500:]})
+        else:
+            raise vk.Inconclusive("slow-load driver failed:\n" + out3[-2500:])
+    else:
+        sev = vk.read_ndjson(sl)
+        acc3, rej3 = ctx.validate_trace("Trace_ReloadStress", "Trace_ReloadStress.cfg", sl, name="tlc_slowload", timeout=1800)
+        for r in rej3:
+            e = sev[r["line"] - 1]
+            ctx.violation("C19:slow-load:%s" % r["why"], {"event": e, "expected": r["expected"]})
+        total_events += len(sev)
+        ctx.traces_validated += sum(1 for e in sev if e["ev"] == "slowload") - len(rej3)
 
     # ------------------------------------------------------------------ V: stress
     sth.join()
